@@ -3,7 +3,7 @@
    small-step interleaving semantics of util/queue.go at the granularity of every lock and
    mailbox operation, for one producer and one consumer, over an arbitrary chunk type. *)
 From Coq Require Import List Arith.
-From Scrapli Require Import Queue QueueLemmas.
+From Scrapli Require Import DecideLang GeneratedSkel QueueSrc Queue QueueLemmas.
 Import ListNotations.
 
 (* for every chunk list, every consumer program and EVERY schedule: *)
@@ -45,6 +45,15 @@ Theorem C20_empty_nonblocking : forall A (s : st A) o, cp A s = CPeekDone o 0 ->
   exists s', step s Cons = Some s' /\ cp A s' = CIdle /\ lk A s' = lk A s /\ q A s' = q A s /\ nils A s' = S (nils A s).
 Proof. exact q_empty_nonblocking. Qed.
 
+(* THE TIE BY TRANSLATION: every method of util/queue.go, as the source has it on this run
+   (GeneratedSkel.queue_code, translated statement by statement), performs in order exactly the
+   lock, mailbox, slice and depth actions that the transitions of the model stand for
+   (QueueSrc.prod_acts / cons_acts), tests exactly `q.getDepth() == 0` before taking, and returns
+   what the model returns.  (The methods are straight-line code with that one test, so the check
+   is a finite evaluation; it is the model's granularity and order that it ties to the source.) *)
+Theorem C20_queue_is_source : queue_src_ok = true.
+Proof. exact queue_src_ok_true. Qed.
+
 Print Assumptions C20_lossless.
 Print Assumptions C20_produced_in_order.
 Print Assumptions C20_final.
@@ -55,3 +64,4 @@ Print Assumptions C20_no_deadlock.
 Print Assumptions C20_progress.
 Print Assumptions C20_can_finish.
 Print Assumptions C20_empty_nonblocking.
+Print Assumptions C20_queue_is_source.
